@@ -258,6 +258,89 @@ def find_calls(fn, suffix):
     return [c for c in H.calls(fn["hir"]) if (H.callee(c) or "").endswith(suffix) or (c.get("callee") or "").endswith(suffix)]
 
 
+def tok_builtins():
+    """quote!'s expansion over a token list: `#x` appends ("tok", x), literal tokens append their kind"""
+    b = builtins()
+
+    def push(tag):
+        def fn(it, a):
+            a[0].append((tag,) + tuple(x for x in a[1:] if isinstance(x, (str, list))))
+            return ()
+        return fn
+    b["proc_macro2::TokenStream::new"] = lambda it, a: []
+    b["quote::to_tokens::ToTokens::to_tokens"] = lambda it, a: (a[1].append(("tok", a[0])), ())[1]
+    for n in ("ident", "dot", "group", "comma", "colon2", "colon", "semi", "pound", "bang", "and", "star", "eq", "fat_arrow", "rarrow", "lt", "gt",
+              "underscore", "lifetime", "literal"):
+        b["quote::__private::push_" + n] = push(n)
+    b["crate::iden::write_arm::WriteArm::variant"] = lambda it, a: Var("variant", [a[0], a[1]])
+    return b
+
+
+IDENT_D = "proc_macro2::Ident"
+ATTR_D = "crate::iden::attr::IdenAttr::"
+
+
+def get_table_name_by_interp(run, f, cfg, g):
+    """get_table_name on (type identifier) x (no attribute, rename literal, method, flatten, unparsable attribute)"""
+    from ..interp import Opaque
+    rows, bad = 0, []
+    attrs = [("none", None), ("rename", ("Ok", Var(ATTR_D + "Rename", ["Custom Name"]))), ("rename2", ("Ok", Var(ATTR_D + "Rename", ["x"]))),
+             ("method", ("Ok", Var(ATTR_D + "Method", [Var(IDENT_D, ["m"])]))), ("flatten", ("Ok", Var(ATTR_D + "Flatten", []))), ("bad", ("Err", Opaque("syn::Error")))]
+    for tname in ("Hello", "UserProfile", "HTTPServer", "Id2", "Table"):
+        for an, parsed in attrs:
+            b = builtins()
+            b["crate::find_attr"] = lambda it_, a, parsed=parsed: None if parsed is None else ("__some", Opaque("attr"))
+            b["core::convert::TryInto::try_into"] = lambda it_, a, parsed=parsed: parsed
+            b["syn::error::Error::new_spanned"] = lambda it_, a: Opaque("syn::Error")
+            it = Interp(f, builtins=b)
+            it.display_hook = lambda v: v.fields[0] if isinstance(v, Var) and v.d == IDENT_D else None
+            rows += 1
+            r = it.call_fn("crate::get_table_name", [Var(IDENT_D, [tname]), Opaque("attrs")])
+            if isinstance(r, Var) and r.d in ("core::result::Result::Ok", "core::result::Result::Err") and len(r.fields) == 1:
+                r = (r.d.rsplit("::", 1)[-1], r.fields[0])
+            if an == "none":
+                want = ("Ok", snake_case(tname))
+            elif an.startswith("rename"):
+                want = ("Ok", parsed[1].fields[0])
+            else:
+                want = "Err"
+            got = r if want != "Err" else (r[0] if isinstance(r, tuple) and r else r)
+            if got != want:
+                bad.append("type %s, container attribute %s: %r, expected %r" % (tname, an, r, want))
+    run.ob("C19.R3", "get_table_name:default", not any("attribute none" in x for x in bad),
+           "without a container attribute the table name is snake_case(type identifier) (get_table_name interpreted on %d (type name, attribute) rows)%s"
+           % (rows, "" if not bad else " - NOT: " + "; ".join(x for x in bad if "attribute none" in x)[:300]), sp=g["sp"], cfg=cfg)
+    rb = [x for x in bad if "attribute none" not in x]
+    run.ob("C19.R3", "get_table_name:rename", not rb,
+           "a container rename attribute yields its literal unchanged; method / flatten / unparsable container attributes are errors%s"
+           % ("" if not rb else " - NOT: " + "; ".join(rb)[:300]), sp=g["sp"], cfg=cfg)
+
+
+def write_variant_name_by_interp(run, f, cfg, w):
+    """write_variant_name on (variant identifier) x (no attribute, rename, method): the tokens handed to WriteArm::variant"""
+    from ..interp import Opaque
+    ws = "crate::iden::write_arm::IdenVariant::<'a, T>::write_variant_name"
+    rows, bad = 0, []
+    for ident in ("Table", "FirstName", "HTTPServer", "Id2"):
+        for an, attr in (("none", None), ("rename", ("__some", Var(ATTR_D + "Rename", ["Custom Name"]))),
+                         ("method", ("__some", Var(ATTR_D + "Method", [Var(IDENT_D, ["my_method"])])))):
+            it = Interp(f, builtins=tok_builtins())
+            rows += 1
+            r = it.call_fn(ws, [{"ident": ident, "table_name": "the_container", "attr": attr, "fields": None, "_p": None}, Opaque("variant")])
+            name = r.fields[1] if isinstance(r, Var) and r.d == "variant" and isinstance(r.fields[0], Opaque) else None
+            if an == "none":
+                want = [("tok", "the_container" if ident == "Table" else snake_case(ident))]
+            elif an == "rename":
+                want = [("tok", "Custom Name")]
+            else:
+                want = [("ident", "self"), ("dot",), ("tok", Var(IDENT_D, ["my_method"])), ("group", [])]
+            if name != want:
+                bad.append("variant %s, attribute %s: the name tokens are %r, expected %r" % (ident, an, name, want))
+    run.ob("C19.R3", "write_variant_name:default", not bad,
+           "write_variant_name interpreted on %d (variant, attribute) rows: without an attribute the written name is table_or_snake_case(), rename writes its literal, "
+           "method writes `self.<method>()`%s" % (rows, "" if not bad else " - NOT: " + "; ".join(bad)[:400]), sp=w["sp"], cfg=cfg)
+
+
 def check_name_sources(run, f, cfg):
     ts = "crate::iden::write_arm::IdenVariant::<'a, T>::table_or_snake_case"
     fn = f.fns.get(ts)
@@ -282,6 +365,12 @@ def check_name_sources(run, f, cfg):
     if g is None:
         run.anchor("C19.R3", "get_table_name", "not found", cfg)
     else:
+        try:
+            get_table_name_by_interp(run, f, cfg, g)
+            g = None
+        except (Unsupported, Diverged):
+            pass
+    if g is not None:
         sn = find_calls(g, "ToSnakeCase::to_snake_case")
         ok = len(sn) == 1
         if ok:
@@ -307,6 +396,12 @@ def check_name_sources(run, f, cfg):
     if w is None:
         run.anchor("C19.R3", "write_variant_name", "not found", cfg)
     else:
+        try:
+            write_variant_name_by_interp(run, f, cfg, w)
+            w = None
+        except (Unsupported, Diverged):
+            pass
+    if w is not None:
         cs = [c.get("name") for c in H.calls(w["hir"]) if c.get("k") == "mcall" and H.place(c["recv"]) == "self"]
         run.ob("C19.R3", "write_variant_name:default", "table_or_snake_case" in cs, "without a variant attribute the written name is table_or_snake_case()", sp=w["sp"], cfg=cfg)
     e = f.fns.get("crate::enum_def")
@@ -320,7 +415,11 @@ def check_name_sources(run, f, cfg):
         if ok:
             r = H.peel_ref(sc[0]["recv"])
             ok = r.get("k") == "mcall" and r["name"] == "to_string" and (H.place(r["recv"]) or "").endswith("input.ident")
-        run.ob("C19.R3", "enum_def:table", ok, "enum_def `Table` defaults to snake_case(struct identifier)", sp=e["sp"], cfg=cfg)
+        if not check_enum_def_table_ident(run, f, cfg):
+            # the interpolated identifier could not be interpreted: the syntactic form of its default
+            run.ob("C19.R3", "enum_def:table", ok, "enum_def `Table` defaults to snake_case(struct identifier)", sp=e["sp"], cfg=cfg)
+        if check_enum_def_table_ident(run, f, cfg, option="prefix"):
+            return
         body = nhir(f, "crate::enum_def")
         frags = [T_text(n["scrut"]) for n in walk(body) if n.get("k") == "match" and "quote::format_ident" in (n.get("mac") or [])]
         fm = [n for n in walk(body) if n.get("k") == "fmt" and "quote::format_ident" in (n.get("mac") or [])]
@@ -334,16 +433,19 @@ RUST_KEYWORDS = set("as break const continue crate else enum extern false fn for
                     "virtual yield try".split())
 
 
-def check_enum_def_table_ident(run, f, cfg):
+def check_enum_def_table_ident(run, f, cfg, option="table_name"):
     """the identifier that #[enum_def] interpolates for the `Table` variant: the backward slice of its definition (the lets
     it depends on) is interpreted for type names that are ordinary, multi-word, acronyms and Rust keywords, with and
     without `table_name = ".."`; the spelled identifier must be the option or snake_case(type name), nothing added"""
     from ..interp import Opaque
     e = f.fns.get("crate::enum_def")
     if e is None:
-        return
-    body = e["hir"]
-    lets = [n for n in walk(body) if n.get("k") == "stmt_let" and n.get("init") is not None]
+        return False
+    body = H.alpha_rename(nhir(f, "crate::enum_def"))
+    QUOTE = ("quote::quote", "quote", "quote_spanned", "quote::quote_spanned")
+    # the lets the function itself writes (those inside the expansion of quote! are the interpolation machinery)
+    lets = [n for n in walk(body) if n.get("k") == "stmt_let" and n.get("init") is not None and
+            not (((n.get("init") or {}).get("mac") or [None])[-1] in QUOTE)]
     interp_locals = set()
     for c in H.calls(body):
         if (c.get("callee") or "").endswith("ToTokens::to_tokens"):
@@ -355,7 +457,8 @@ def check_enum_def_table_ident(run, f, cfg):
         return set(n["name"] for n in walk(node) if n.get("k") == "local")
 
     def mentions_option(node):
-        return any(n.get("k") == "field" and n.get("name") == "table_name" for n in walk(node))
+        return any(n.get("k") == "field" and n.get("name") == option for n in walk(node))
+    key = "enum_def:table-ident" if option == "table_name" else "enum_def:name"
     # the slice: lets (in order) that the interpolated local depends on, for the local whose slice reads args.table_name
     target, slice_ = None, None
     for cand in sorted(interp_locals):
@@ -371,13 +474,14 @@ def check_enum_def_table_ident(run, f, cfg):
             target, slice_ = cand, list(reversed(chosen))
             break
     if target is None:
-        run.anchor("C19.R3", "enum_def:table-ident", "no interpolated identifier of enum_def depends on the table_name option", cfg)
-        return
+        if option == "table_name":
+            run.anchor("C19.R3", "enum_def:table-ident", "no interpolated identifier of enum_def depends on the table_name option", cfg)
+        return False
     IDENT = "proc_macro2::Ident"
     bad, rows = [], 0
     try:
         for tname in ("Hello", "UserProfile", "HTTPServer", "Type", "Match", "Ref"):
-            for opt in (None, "custom_table", "type"):
+            for opt in ((None, "custom_table", "type") if option == "table_name" else ((None, None), ("Pre", None), (None, "Suf"), ("Pre", "Suf"), ("", ""))):
                 rows += 1
                 b = builtins()
                 b.update({
@@ -386,26 +490,46 @@ def check_enum_def_table_ident(run, f, cfg):
                     IDENT + "::span": lambda it_, a: Opaque("span"),
                     "syn::parse_str": lambda it_, a: (("Ok", Var(IDENT, [a[0]])) if (a[0] not in RUST_KEYWORDS and a[0].isidentifier()) else ("Err", Opaque("syn::Error"))),
                     "quote::__private::mk_ident": lambda it_, a: Var(IDENT, [a[0]]),
+                    "quote::__private::IdentFragmentAdapter::<T>::span": lambda it_, a: None,
                 })
                 it = Interp(f, builtins=b)
                 it.free_opaque = True
-                it.display_hook = lambda v: v.fields[0] if isinstance(v, Var) and v.d == IDENT else None
-                env = {"args": {"table_name": (("__some", opt) if opt is not None else None), "crate_name": None, "prefix": None, "suffix": None},
+                def disp(v):
+                    # quote's IdentFragmentAdapter displays its payload as an identifier fragment
+                    while isinstance(v, Var) and v.d == "quote::__private::IdentFragmentAdapter" and len(v.fields) == 1:
+                        v = v.fields[0]
+                    return v.fields[0] if isinstance(v, Var) and v.d == IDENT else (v if isinstance(v, str) else None)
+                it.display_hook = disp
+                some = lambda v: ("__some", v) if v is not None else None
+                env = {"args": {"table_name": some(opt), "crate_name": None, "prefix": None, "suffix": None} if option == "table_name" else
+                       {"table_name": None, "crate_name": None, "prefix": some(opt[0]), "suffix": some(opt[1])},
                        "input": {"ident": Var(IDENT, [tname]), "attrs": Opaque("attrs"), "vis": Opaque("vis"), "fields": Opaque("fields"), "generics": Opaque("g")}}
                 for l in slice_:
                     if any(bn in ("args", "input") for bn in (x["name"] for x in walk(l["pat"]) if x.get("k") == "bind")):
                         continue        # the parsed macro input itself
                     it.ev(l, env)
                 got = env.get(target)
-                want = opt if opt is not None else snake_case(tname)
+                if option == "table_name":
+                    want = opt if opt is not None else snake_case(tname)
+                else:
+                    want = ("" if opt[0] is None else opt[0]) + tname + ("Iden" if opt[1] is None else opt[1])
                 if not (isinstance(got, Var) and got.d == IDENT and got.fields[0] == want):
-                    bad.append("struct %s, table_name = %r: `Table` is spelled %r, expected %r" % (tname, opt, got.fields[0] if isinstance(got, Var) else got, want))
+                    bad.append("struct %s, %s = %r: %s is spelled %r, expected %r" % (tname, option if option == "table_name" else "(prefix, suffix)", opt,
+                                                                                   "`Table`" if option == "table_name" else "the generated enum",
+                                                                                   got.fields[0] if isinstance(got, Var) else got, want))
     except (Unsupported, Diverged) as ex:
-        run.ob("C19.R3", "enum_def:table-ident", False, "the definition of `%s` in enum_def is outside the tabulated fragment: %s" % (target, ex), sp=e["sp"], cfg=cfg)
-        return
-    run.ob("C19.R3", "enum_def:table-ident", not bad,
-           "enum_def: the identifier interpolated for `Table` (`%s`, %d lets interpreted on %d (type name, table_name option) rows incl. keyword names) is the option, "
-           "else snake_case(type name), with nothing added%s" % (target, len(slice_), rows, "" if not bad else " - NOT: " + "; ".join(bad[:3])), sp=e["sp"], cfg=cfg)
+        if option == "table_name":
+            run.ob("C19.R3", "enum_def:table-ident", False, "the definition of `%s` in enum_def is outside the tabulated fragment: %s" % (target, ex), sp=e["sp"], cfg=cfg)
+        return False
+    if option == "table_name":
+        run.ob("C19.R3", "enum_def:table-ident", not bad,
+               "enum_def: the identifier interpolated for `Table` (`%s`, %d lets interpreted on %d (type name, table_name option) rows incl. keyword names) is the option, "
+               "else snake_case(type name), with nothing added%s" % (target, len(slice_), rows, "" if not bad else " - NOT: " + "; ".join(bad[:3])), sp=e["sp"], cfg=cfg)
+    else:
+        run.ob("C19.R3", "enum_def:name", not bad,
+               "enum_def: the generated enum's identifier (`%s`, %d lets interpreted on %d (type name, prefix, suffix) rows) is prefix + struct identifier + suffix, "
+               "defaults \"\" and \"Iden\"%s" % (target, len(slice_), rows, "" if not bad else " - NOT: " + "; ".join(bad[:3])), sp=e["sp"], cfg=cfg)
+    return True
 
 
 def T_text(e):
@@ -549,7 +673,6 @@ def check(run):
         check_variant_predicate(run, f, cfg)
     check_guards(run, f, cfg)
     check_name_sources(run, f, cfg)
-    check_enum_def_table_ident(run, f, cfg)
     check_witnesses(run, f, cfg)
     run.trusted.append("heck's to_snake_case / to_pascal_case implement the documented casing (cross-checked on the expansions of tests/derive against an independent implementation)")
     run.assumptions.append("not decided: the transformation on all possible input programs beyond the guards, name sources and in-repo expansions")
